@@ -101,3 +101,21 @@ Fixpoint toks_same (l1 l2 : list tok) : bool :=
   | a :: r1, b :: r2 => tok_eqb a b && toks_same r1 r2
   | _, _ => false
   end.
+
+(* ---- C05: the mirror of pyformlang's own parser (Model/RegexReader.v) against the tree / the refusal pyformlang produces ---- *)
+From PFL Require Export Model.RegexReader.
+Fixpoint re_eqb (r s : re) : bool :=
+  match r, s with
+  | REmpty, REmpty | REps, REps => true
+  | RSym a, RSym b => N.eqb a b
+  | RCat a b, RCat c d | RAlt a b, RAlt c d => re_eqb a c && re_eqb b d
+  | RStar a, RStar b => re_eqb a b
+  | _, _ => false
+  end.
+(* expected: Some tree = pyformlang built this tree; None = pyformlang raised MisformedRegexError *)
+Definition reader_agrees (toks : list tok) (expected : option re) : bool :=
+  match reader_regex toks, expected with
+  | inl t, Some t' => re_eqb t t'
+  | inr EMis, None => true
+  | _, _ => false
+  end.
